@@ -17,7 +17,8 @@ RULE = ("every ordered pair of comparand values from a pool covering the 9 kinds
         "differing only by a bool-vs-number leaf / key order / a missing key) x 6 operators x producer combinations (literal, @-relative and "
         "$-absolute singular query on planted members, value()/length()/count() results, missing member / value() of many for nothing); "
         "observed = whether find('$[?L op R]', [child]) selects the child; oracle = comparison table of RFC 9535 2.3.5.2.2. "
-        "Non-trivial: kind pair for which some operator can be true; distinct by (values, op, producers). cell_table = (kind,kind,op) cells observed.")
+        "Non-trivial: kind pair for which some operator can be true; distinct by (values, op, producers). cell_table = (kind,kind,op) cells observed."
+        " Half of the cases add a sibling child with other values under the same member names (before or after the tested child) so that nothing computed for one child can be reused for the other; a nested-call sweep (current node only inside a nested call) and near-equal floats / integers beyond 2^53 in documents are included.")
 ASSUMPTIONS = ["oracle vf/oracle/sem.py:compare is the RFC table (type-strict at every depth, bool never a number)",
                "number literals restricted to exactly representable values"]
 DECIDING_MONITORS = ["M-find"]
